@@ -346,9 +346,9 @@ def tz_model(ctx, rule):
         if len(cands) == 1:
             nested = cands
     rest = [n for n in f.node.body if not isinstance(n, (ast.FunctionDef, ast.For)) and not (isinstance(n, ast.Expr) and isinstance(n.value, ast.Constant))]
-    if len(nested) != 1 or len(loops) != 1 or rest:
-        raise AnalysisError(rule, "build_tz_offsets: expected one helper (nested or module-level) and one loop nest")
-    helper = nested[0]
+    if len(nested) > 1 or len(loops) != 1 or rest:
+        raise AnalysisError(rule, "build_tz_offsets: expected at most one helper (nested or module-level) and one loop nest")
+    helper = nested[0] if nested else ast.parse("def _no_helper_():\n    return None").body[0]     # entries may be written out in the yields
     sink = f.params()[0]
 
     class Unknown(Exception):
@@ -521,7 +521,10 @@ def r2(ctx, chk):
     chk.floor(rule, len(entries), 500, "timezone table entries rebuilt from timezones.py")
     m = ctx.ix.module("dateparser.timezone_parser")
     cp = m.assigns.get("CACHE_PATH")
-    cparts = [n.value for n in ast.walk(cp[-1]) if isinstance(n, ast.Constant) and isinstance(n.value, str)] if cp else []
+    from .util import path_parts
+    cparts = path_parts(cp[-1]) if cp else None
+    if cparts is None:
+        raise AnalysisError(rule, "CACHE_PATH is built in a way this rule cannot follow")
     rel = "dateparser/" + "/".join(cparts)
     data = ctx.repo.bytes(rel)
     root, proto, nops = pickledis.disassemble(data)
